@@ -57,3 +57,22 @@ package objects
 //@   loop 1 invariant fresh(sl) || (reg(sl) == reg(old(d.sl)) && off(sl) == off(old(d.sl)) && cap(sl) == cap(old(d.sl)))
 //@   loop 1 decreases n - i
 //@   replay NewUintListDecoder(false).Read($r)
+
+// enc(sl): 4-byte count, then per cell a 2-byte length and the bytes. offs(i) is the offset of cell i's length prefix.
+//@ func (*StrListEncoder).Encode
+//@   props C01 C06
+//@   ghost offs(i) : base 4 ; step 2 + len(sl[i]) ; upto len(sl)
+//@   requires len(sl) <= 1048576 && offs(len(sl)) <= 1099511627776
+//@   panics-when exists(i, 0, len(sl), len(sl[i]) > 65535)
+//@   modifies e.buf, e.buf[:]
+//@   ensures [C06] len(result) == offs(len(sl)) && be32(result, 0) == len(sl)
+//@   ensures [C06] forall(i, 0, len(sl), be16(result, offs(i)) == len(sl[i]) && bytesAt(result, offs(i) + 2, sl[i]))
+//@   lemma offLow: forall(i, 0, len(sl) + 1, offs(i) >= 4 + 2*i)
+//@   lemma offUp: down forall(i, 0, len(sl) + 1, offs(i) <= offs(len(sl)) && (i < len(sl) ==> offs(i) + 2 + len(sl[i]) <= offs(len(sl))))
+//@   loop 1 invariant bufLen == offs(iter) && iter <= len(sl)
+//@   loop 1 decreases len(sl) - iter
+//@   loop 2 invariant offset == offs(iter) && iter <= len(sl) && len(e.buf) == offs(len(sl)) && (fresh(e.buf) || reg(e.buf) == reg(old(e.buf)))
+//@   loop 2 invariant be32(e.buf, 0) == len(sl)
+//@   loop 2 invariant forall(j, 0, iter, offs(j) + 2 + len(sl[j]) <= offs(iter))
+//@   loop 2 invariant forall(j, 0, iter, be16(e.buf, offs(j)) == len(sl[j]) && bytesAt(e.buf, offs(j) + 2, sl[j]))
+//@   loop 2 decreases len(sl) - iter
